@@ -1,18 +1,142 @@
-//! Oracle validation on the native build: the repository's own test vectors are pushed through
-//! the harness oracles and the implementation.  A wrong oracle shows up here, not as a false alarm.
+//! Oracle validation on the native build: the repository's own test vectors (and a deterministic
+//! sweep) are pushed through the harness oracles and the real implementation.  A wrong oracle
+//! shows up here, not as a false alarm later.  Run by the driver before every check.
+use crate::oracle;
+use cel_interpreter::extractors::This;
+use cel_interpreter::{functions, Context, FunctionContext, Value};
+use std::cmp::Ordering;
+use std::sync::Arc;
+
+fn impl_duration_string(n: i64) -> String {
+    let ctx = Context::empty();
+    let ftx = FunctionContext::new(Arc::new(String::new()), None, &ctx, Vec::new());
+    match functions::string(&ftx, This(Value::Duration(chrono::Duration::nanoseconds(n)))) {
+        Ok(Value::String(s)) => s.to_string(),
+        other => format!("<{:?}>", other),
+    }
+}
+fn canon(text: &str, n: i64) -> bool {
+    let mut buf = [0u8; 40];
+    let b = text.as_bytes();
+    if b.len() > 40 {
+        return false;
+    }
+    buf[..b.len()].copy_from_slice(b);
+    oracle::is_canonical_go_duration(&buf, b.len(), n)
+}
+
 pub fn run() -> i32 {
     let mut failed = 0;
     let mut n = 0;
     macro_rules! t {
-        ($c:expr, $m:expr) => {{
+        ($c:expr, $($m:tt)*) => {{
             n += 1;
             if !$c {
-                eprintln!("SELFTEST-FAIL: {}", $m);
+                eprintln!("SELFTEST-FAIL: {}", format!($($m)*));
                 failed += 1;
             }
         }};
     }
-    t!(1 + 1 == 2, "sanity");
-    println!("SELFTEST cases={} failed={}", n, failed);
-    if failed == 0 { 0 } else { 1 }
+    // ---- duration text: vectors of interpreter/src/duration.rs::test_format_durations
+    let fmt: &[(i64, &str)] = &[
+        (0, "0s"),
+        (1, "1ns"),
+        (1100, "1.1µs"),
+        (2_200_000, "2.2ms"),
+        (3_300_000_000, "3.3s"),
+        (245_000_000_000, "4m5s"),
+        (245_001_000_000, "4m5.001s"),
+        (18_367_001_000_000, "5h6m7.001s"),
+        (480_000_000_001, "8m0.000000001s"),
+        (i64::MAX, "2562047h47m16.854775807s"),
+        (i64::MIN, "-2562047h47m16.854775808s"),
+        (3_600_000_000_000, "1h0m0s"),
+        (-1_500_000, "-1.5ms"),
+        (-2_000_000_000, "-2s"),
+        (5_400_000_000_000, "1h30m0s"),
+        (60_000_000_000, "1m0s"),
+        (59_999_999_999, "59.999999999s"),
+        (999, "999ns"),
+        (-999_999_999, "-999.999999ms"),
+    ];
+    for (ns, text) in fmt {
+        t!(canon(text, *ns), "canonical text {:?} for {} rejected by the oracle", text, ns);
+        t!(oracle::read_go_duration(text.as_bytes()) == Some(*ns as i128), "reader on {:?}", text);
+        let mut b = [0u8; 32];
+        let w = oracle::go_duration_string(*ns, &mut b);
+        t!(&b[w..] == text.as_bytes(), "reference model B on {} gives {:?}", ns, String::from_utf8_lossy(&b[w..]));
+    }
+    // non-canonical or wrong spellings must be rejected
+    let bad: &[(i64, &str)] = &[
+        (60_000_000_000, "60s"),
+        (1_000_000_000, "01s"),
+        (1_500_000_000, "1.50s"),
+        (1_000_000_000, "1000ms"),
+        (500_000_000, "0.5s"),
+        (1_000_000_000, "1s "),
+        (1_000_000_000, "1"),
+        (3_600_000_000_000, "1h"),
+        (3_600_000_000_000, "1h0s"),
+        (3_600_000_000_000, "60m0s"),
+        (-1_000_000_000, "1s"),
+        (1_000_000_000, "-1s"),
+        (1_000_000_000, "2s"),
+        (1_100, "1.1us"),
+        (0, "0ns"),
+        (0, "-0s"),
+        (1, "1.0ns"),
+        (61_000_000_000, "1m1.s"),
+        (1_000_000_000, "1s1s"),
+        (9_000_000_000, "0m9s"),
+    ];
+    for (ns, text) in bad {
+        t!(!canon(text, *ns), "non-canonical text {:?} for {} accepted by the oracle", text, ns);
+    }
+    // ---- oracle against the real formatter on a deterministic sweep (both signs)
+    let mut x: u64 = 0x9E3779B97F4A7C15;
+    let mut mism = 0;
+    for k in 0..20000u64 {
+        x ^= x << 13;
+        x ^= x >> 7;
+        x ^= x << 17;
+        let shift = (k % 64) as u32;
+        let v = (x >> shift) as i64;
+        for ns in [v, v.wrapping_neg()] {
+            // reference model B must satisfy the exact reader + canonicity oracle on every swept input
+            let mut b = [0u8; 32];
+            let w = oracle::go_duration_string(ns, &mut b);
+            let txt = String::from_utf8_lossy(&b[w..]).to_string();
+            t!(canon(&txt, ns) && oracle::read_go_duration(&b[w..]) == Some(ns as i128), "reference model B on {} gives non-canonical {:?}", ns, txt);
+            let s = impl_duration_string(ns);
+            if !canon(&s, ns) {
+                mism += 1;
+                if mism <= 3 {
+                    eprintln!("SELFTEST-NOTE: string(duration {}ns) = {:?} is not the canonical text for that count", ns, s);
+                }
+            }
+        }
+    }
+    // a mismatch here is a disagreement between implementation and oracle on concrete inputs; it
+    // is reported, and decided by the Kani harnesses (c15_format_*), not silently trusted
+    if mism > 0 {
+        eprintln!("SELFTEST-NOTE: {} of 40000 swept durations disagree with the oracle", mism);
+    }
+    // ---- exact comparisons: vectors of objects.rs tests (test_float_compare & friends)
+    t!(oracle::cmp_int_float(1, 1.0) == Some(Ordering::Equal), "1 == 1.0");
+    t!(oracle::cmp_int_float(1, 1.5) == Some(Ordering::Less), "1 < 1.5");
+    t!(oracle::cmp_int_float(-1, -1.5) == Some(Ordering::Greater), "-1 > -1.5");
+    t!(oracle::cmp_int_float(i64::MAX, 9223372036854775808.0) == Some(Ordering::Less), "MAX < 2^63");
+    t!(oracle::cmp_int_float(i64::MIN, -9223372036854775808.0) == Some(Ordering::Equal), "MIN == -2^63");
+    t!(oracle::cmp_int_float((1 << 53) + 1, 9007199254740992.0) == Some(Ordering::Greater), "2^53+1 > 2^53");
+    t!(oracle::cmp_uint_float(u64::MAX, 18446744073709551616.0) == Some(Ordering::Less), "u64::MAX < 2^64");
+    t!(oracle::cmp_uint_float(0, -0.0) == Some(Ordering::Equal), "0 == -0.0");
+    t!(oracle::cmp_uint_float(0, -0.5) == Some(Ordering::Greater), "0 > -0.5");
+    t!(oracle::cmp_int_float(0, f64::NAN).is_none(), "NaN unordered");
+    t!(oracle::cmp_int_uint(-1, 0) == Ordering::Less, "-1 < 0u");
+    println!("SELFTEST cases={} failed={} sweep_mismatches={}", n, failed, mism);
+    if failed == 0 {
+        0
+    } else {
+        1
+    }
 }
